@@ -1,6 +1,6 @@
 -- GENERATED from /repo by harness/vh (translator); do not edit.
 namespace Iodata.Gen.OrbitalFields
-def moFields : List (String × String) := [("kind", "in_(['restricted','unrestricted','generalized'])"), ("norba", "validate_norbab"), ("norbb", "validate_norbab"), ("occs", "optional(validate_shape('norb'))"), ("coeffs", "optional(validate_shape(None,'norb'))"), ("energies", "optional(validate_shape('norb'))"), ("irreps", "optional(validate_shape('norb'))"), ("occs_aminusb", "and_(optional(validate_shape('norb')),validate_occs_aminusb)")]
+def moFields : List (String × String) := [("kind", "[in_(['restricted','unrestricted','generalized']),validate_change]"), ("norba", "[validate_norbab,validate_change]"), ("norbb", "[validate_norbab,validate_change]"), ("occs", "optional(validate_shape('norb'))"), ("coeffs", "optional(validate_shape(None,'norb'))"), ("energies", "optional(validate_shape('norb'))"), ("irreps", "optional(validate_shape('norb'))"), ("occs_aminusb", "and_(optional(validate_shape('norb')),validate_occs_aminusb)")]
 def refusing : List String := ["coeffsa", "coeffsb", "energiesa", "energiesb", "irrepsa", "irrepsb", "occsa", "occsa=", "occsb", "occsb=", "spinpol"]
 def shellFields : List (String × String) := [("icenter", "none"), ("angmoms", "validate_shape(('coeffs',1))"), ("kinds", "validate_shape(('coeffs',1))"), ("exponents", "validate_shape(('coeffs',0))"), ("coeffs", "validate_shape(('exponents',0),('kinds',0))")]
 end Iodata.Gen.OrbitalFields
